@@ -13,13 +13,20 @@ type Value interface{}
 type Cell struct {
 	V      Value
 	ID     int
-	Shared *SharedInfo // event mode: non-nil if this cell is part of shared state
+	Shared *SharedInfo // event mode: non-nil for published / shadow cells (setup cells are named by ID)
+	Origin string      // event mode: allocation-site name of a thread-allocated object
+	Type   types.Type  // static type of an allocated object (for shadows)
 }
 
 type PtrVal struct{ C *Cell } // C == nil: nil pointer
 
 type StructVal struct{ F []*Cell }
-type ArrayVal struct{ E []*Cell }
+type ArrayVal struct {
+	E      []*Cell
+	Name   string
+	Origin string
+	Type   types.Type
+}
 
 type SliceVal struct {
 	Arr           *ArrayVal // nil: nil slice
@@ -39,6 +46,8 @@ type MapVal struct {
 	ID      int
 	KeyT    types.Type
 	ElemT   types.Type
+	Name    string
+	Origin  string
 }
 
 type IfaceVal struct {
@@ -56,16 +65,18 @@ type FuncVal struct {
 type ChanVal struct {
 	Closed bool
 	ID     int
-	Cell   *Cell // event mode: closed flag lives in a cell
+	Name   string
+	Origin string
 }
 
 type TupleVal []Value
 
 type mapIter struct {
-	m    *MapVal
-	snap []*mapEntry
-	pos  int
-	str  *StrVal
+	m      *MapVal
+	snap   []*mapEntry
+	pos    int
+	str    *StrVal
+	shared string // event mode: name of the shared mutable map iterated
 }
 
 func isNilable(t types.Type) bool {
@@ -117,7 +128,11 @@ func isString(t types.Type) bool {
 
 func (e *Engine) newCell(v Value) *Cell {
 	e.cellN++
-	return &Cell{V: v, ID: e.cellN}
+	c := &Cell{V: v, ID: e.cellN}
+	if e.trackCells {
+		e.allCells = append(e.allCells, c)
+	}
+	return c
 }
 
 func (e *Engine) zero(t types.Type) Value {
